@@ -73,6 +73,8 @@ func main() {
 		os.Exit(cmdSelftest(os.Args[2:]))
 	case "sync":
 		os.Exit(cmdSync(os.Args[2:]))
+	case "replay":
+		os.Exit(cmdReplay(os.Args[2:]))
 	}
 	fmt.Fprintln(os.Stderr, "unknown subcommand", os.Args[1])
 	os.Exit(2)
